@@ -370,50 +370,115 @@ Section RibProofs.
       assert (rn_named nd = true) by (apply (ri_named _ _ I q nd E); congruence). congruence.
   Qed.
 
-  Definition Rstep (f : N) (R : rspec) (q : name) : rspec := set R q (rem_face (rget R q) f).
-
-  Lemma clean_node_sys : forall f t R (fib0 : spec) acc q, RInv t R -> FOK (fold_left spec_step acc fib0) R ->
-    let st' := clean_node shuffle f (t, acc) q in
-    RInv (fst st') (Rstep f R q) /\ FOK (fold_left spec_step (snd st') fib0) (Rstep f R q).
-  Proof.
-    intros f t R fib0 acc q I F. unfold clean_node. cbn [fst snd].
-    assert (Hsame : rget R q = [] -> RInv t (Rstep f R q) /\ FOK (fold_left spec_step acc fib0) (Rstep f R q)).
-    { intro Hnil. assert (Hext : forall p, rget (Rstep f R q) p = rget R p).
-      { intro p. unfold Rstep. rewrite rget_set. destruct (name_eqb q p) eqn:Ep; [|reflexivity].
-        apply name_eqb_eq in Ep. subst p. rewrite Hnil. reflexivity. }
-      split; [eapply RInv_ext; eassumption | eapply FOK_ext; eassumption]. }
-    destruct (get t q) as [nd|] eqn:E.
-    - destruct (rn_named nd) eqn:Enm.
-      + cbn [fst snd]. rewrite fold_left_app. unfold Rstep. rewrite <- (ri_routes _ _ I q nd E). rewrite <- Enm.
-        apply node_shrink_sys; [exact I | exact F | exact E | apply rem_face_nonempty].
-      + cbn [fst snd]. apply Hsame. rewrite <- (ri_routes _ _ I q nd E). destruct (rn_routes nd) eqn:Er; [reflexivity|].
-        assert (rn_named nd = true) by (apply (ri_named _ _ I q nd E); congruence). congruence.
-    - cbn [fst snd]. apply Hsame. eapply RInv_absent; eassumption.
-  Qed.
-
-  Lemma clean_fold_sys : forall f L t R (fib0 : spec) acc, RInv t R -> FOK (fold_left spec_step acc fib0) R ->
-    let st' := fold_left (clean_node shuffle f) L (t, acc) in
-    RInv (fst st') (fold_left (Rstep f) L R) /\ FOK (fold_left spec_step (snd st') fib0) (fold_left (Rstep f) L R).
-  Proof.
-    intros f. induction L as [|q L IH]; intros t R fib0 acc I F; cbn [fold_left]; [split; assumption|].
-    destruct (clean_node_sys f t R fib0 acc q I F) as [I' F'].
-    destruct (clean_node shuffle f (t, acc) q) as [t' acc'] eqn:Est. cbn [fst snd] in I', F'. apply IH; assumption.
-  Qed.
-
-  Lemma rget_Rstep_fold : forall f L R x, NoDup L ->
-    rget (fold_left (Rstep f) L R) x = if nmem x L then rem_face (rget R x) f else rget R x.
-  Proof.
-    intros f. induction L as [|q L IH]; intros R x ND; [reflexivity|]. inversion ND as [|? ? Hq ND']; subst.
-    cbn [fold_left]. rewrite IH by exact ND'. unfold nmem. cbn [existsb]. fold (nmem x L).
-    unfold Rstep at 1 2. rewrite rget_set. destruct (name_eqb x q) eqn:E.
-    - apply name_eqb_eq in E. subst q. rewrite name_eqb_refl. cbn [orb].
-      destruct (nmem x L) eqn:E2; [apply nmem_In in E2; contradiction | reflexivity].
-    - rewrite name_eqb_sym, E. reflexivity.
-  Qed.
-
   Lemma rget_map_rem_face : forall (R : rspec) f x, rget (map (fun kv => (fst kv, rem_face (snd kv) f)) R) x = rem_face (rget R x) f.
   Proof.
     induction R as [|[k l] R IH]; intros f x; [reflexivity|]. unfold rget in *. simpl. destruct (name_eqb k x); [reflexivity | apply IH].
+  Qed.
+
+  (* ---------- CleanUpFace: all entries lose the face's routes, everything is recomputed, empty entries go ---------- *)
+  Lemma get_rem_face_all : forall (t : rib) f p,
+    get (rem_face_all t f) p = option_map (fun nd => mkrnode (rn_named nd) (rem_face (rn_routes nd) f)) (get t p).
+  Proof.
+    induction t as [|[k nd] t IH]; intros f p; [reflexivity|]. simpl. destruct (name_eqb k p); [reflexivity | apply IH].
+  Qed.
+
+  Lemma keys_rem_face_all : forall (t : rib) f, keys (rem_face_all t f) = keys t.
+  Proof. intros t f. unfold keys, rem_face_all. rewrite map_map. reflexivity. Qed.
+
+  Lemma get_filter : forall (A : Type) (g : name * A -> bool) (t : amap A) p, NoDup (keys t) ->
+    get (filter g t) p = match get t p with Some v => if g (p, v) then Some v else None | None => None end.
+  Proof.
+    intros A g. induction t as [|[k v] t IH]; intros p ND; [reflexivity|]. inversion ND as [|? ? Hk ND']; subst. simpl.
+    destruct (name_eqb k p) eqn:E.
+    - apply name_eqb_eq in E. subst k. destruct (g (p, v)); simpl; [rewrite name_eqb_refl; reflexivity|].
+      rewrite IH by exact ND'. assert (Hn : get t p = None) by (apply get_None_notin; exact Hk). rewrite Hn. reflexivity.
+    - destruct (g (k, v)); simpl; [rewrite E|]; apply IH; exact ND'.
+  Qed.
+
+  Lemma fib_update_all : forall t' R R' (fib : spec),
+    RSem t' R' -> FOK fib R ->
+    (forall q, match get t' q with Some nd => rn_named nd = false | None => True end -> rget R q = []) ->
+    FOK (fold_left spec_step (update_subtree shuffle t' []) fib) R'.
+  Proof.
+    intros t' R R' fib S F Hun q. unfold update_subtree.
+    assert (Hall : filter (is_prefix []) (keys t') = keys t').
+    { generalize (keys t'). induction l as [|k l IH]; [reflexivity|]. cbn [filter]. rewrite is_prefix_nil. f_equal. exact IH. }
+    rewrite Hall. rewrite (subtree_effect t' _ fib q (rs_nodup _ _ S)).
+    pose proof (rs_routes _ _ S q) as Hr. unfold node_routes in Hr.
+    destruct (nmem q (keys t')) eqn:Ein.
+    - apply nmem_In in Ein. apply In_keys_get in Ein. destruct Ein as [nd Hnd]. unfold local_result. rewrite Hnd in *.
+      destruct (rn_named nd) eqn:Enm.
+      + cbn [nhs]. unfold fib_want, flatten. rewrite <- Hr. destruct (rn_routes nd) as [|r0 rs]; [constructor|].
+        rewrite (contributing_ext (node_routes t') (rget R') q) by (intros; apply (rs_routes _ _ S)). apply shuffle_perm.
+      + assert (Hnil : rn_routes nd = []).
+        { destruct (rn_routes nd) eqn:E; [reflexivity|]. assert (rn_named nd = true) by (apply (rs_named _ _ S q nd Hnd); congruence). congruence. }
+        rewrite Hnil in Hr. assert (HRq : rget R q = []) by (apply Hun; rewrite Hnd; exact Enm).
+        eapply Permutation_trans; [apply F|]. unfold fib_want. rewrite HRq, <- Hr. constructor.
+    - assert (Hnone : get t' q = None).
+      { apply get_None_notin. intro Hin. apply nmem_In in Hin. congruence. }
+      rewrite Hnone in Hr. assert (HRq : rget R q = []) by (apply Hun; rewrite Hnone; exact I).
+      eapply Permutation_trans; [apply F|]. unfold fib_want. rewrite HRq, <- Hr. constructor.
+  Qed.
+
+  Lemma rem_face_incl_nonempty : forall l f, rem_face l f <> [] -> l <> [].
+  Proof. exact rem_face_nonempty. Qed.
+
+  Lemma cleanup_sys : forall t R (fib : spec) f, RInv t R -> FOK fib R ->
+    let R' := map (fun kv => (fst kv, rem_face (snd kv) f)) R in
+    let t1 := rem_face_all t f in
+    RInv (prune_all t1) R' /\ FOK (fold_left spec_step (update_subtree shuffle t1 []) fib) R'.
+  Proof.
+    intros t R fib f I F R' t1.
+    assert (HR' : forall p, rget R' p = rem_face (rget R p) f) by (intro p; apply rget_map_rem_face).
+    pose proof (RInv_sem _ _ I) as S.
+    assert (Hget1 : forall p, get t1 p = option_map (fun nd => mkrnode (rn_named nd) (rem_face (rn_routes nd) f)) (get t p)) by (intro p; apply get_rem_face_all).
+    assert (ND1 : NoDup (keys t1)) by (unfold t1; rewrite keys_rem_face_all; apply I).
+    assert (Hroutes1 : forall p nd1, get t1 p = Some nd1 -> rn_routes nd1 = rget R' p).
+    { intros p nd1 H. rewrite Hget1 in H. destruct (get t p) as [nd|] eqn:E; [|discriminate]. inversion H; subst nd1. simpl.
+      rewrite HR', <- (ri_routes _ _ I p nd E). reflexivity. }
+    assert (Hnamed1 : forall p nd1, get t1 p = Some nd1 -> rn_routes nd1 <> [] -> rn_named nd1 = true).
+    { intros p nd1 H. rewrite Hget1 in H. destruct (get t p) as [nd|] eqn:E; [|discriminate]. inversion H; subst nd1. simpl.
+      intro Hne. apply (ri_named _ _ I p nd E). eapply rem_face_nonempty. exact Hne. }
+    assert (S1 : RSem t1 R').
+    { constructor; [exact ND1 | | exact Hnamed1]. intro p. unfold node_routes. destruct (get t1 p) as [nd1|] eqn:E.
+      - apply Hroutes1. exact E.
+      - rewrite Hget1 in E. destruct (get t p) eqn:E2; [discriminate|]. rewrite HR', (RInv_absent _ _ _ I E2). reflexivity. }
+    split.
+    - (* the tree after pruneEmptyBelow *)
+      assert (Hlive_sub : forall w, rlive R' w -> rlive R w).
+      { intros w H. unfold rlive in *. rewrite HR' in H. eapply rem_face_nonempty. exact H. }
+      assert (Hkeep : forall p nd1, get t1 p = Some nd1 ->
+                (match p with [] => true | _ => existsb (fun kw => is_prefix p (fst kw) && negb (rnode_emp (snd kw))) t1 end = true <-> inCR R' p)).
+      { intros p nd1 Hp. destruct p as [|x p']; [split; [intros _; left; reflexivity | reflexivity]|]. rewrite existsb_exists. split.
+        - intros [[w ndw] [Hin Hc]]. cbn [fst snd] in Hc. apply andb_true_iff in Hc. destruct Hc as [Hc1 Hc2].
+          apply negb_true_iff in Hc2. apply rnode_emp_routes in Hc2. apply In_amap_get in Hin; [|exact ND1].
+          right. exists w. split; [exact Hc1|]. unfold rlive. rewrite <- (Hroutes1 w ndw Hin). exact Hc2.
+        - intros [H0|[w [Hw1 Hw2]]]; [discriminate|].
+          assert (Hm : mem t w = true) by (apply (ri_nodes _ _ I); apply inCR_live; apply Hlive_sub; exact Hw2).
+          apply mem_get in Hm. destruct (get t w) as [ndw|] eqn:Ew; [|congruence].
+          exists (w, mkrnode (rn_named ndw) (rem_face (rn_routes ndw) f)). split.
+          + apply get_In. rewrite Hget1, Ew. reflexivity.
+          + cbn [fst snd]. rewrite Hw1. cbn [andb]. apply negb_true_iff. apply rnode_emp_routes. simpl.
+            rewrite (ri_routes _ _ I w ndw Ew), <- HR'. exact Hw2. }
+      assert (Hgetp : forall p, get (prune_all t1) p = match get t1 p with
+                                  | Some nd1 => if match p with [] => true | _ => existsb (fun kw => is_prefix p (fst kw) && negb (rnode_emp (snd kw))) t1 end then Some nd1 else None
+                                  | None => None end).
+      { intro p. unfold prune_all. rewrite get_filter by exact ND1. reflexivity. }
+      constructor.
+      + unfold prune_all. rewrite <- (app_nil_r (filter _ t1)). rewrite app_nil_r. unfold keys. apply NoDup_map_fst_filter. exact ND1.
+      + intro p. unfold mem. rewrite Hgetp. destruct (get t1 p) as [nd1|] eqn:E.
+        * pose proof (Hkeep p nd1 E) as Hk. destruct (match p with [] => true | _ => _ end); split; intro H; try reflexivity; try discriminate; [apply Hk; reflexivity | apply Hk in H; discriminate].
+        * split; [discriminate|]. intro H. exfalso.
+          assert (HC : inCR R p) by (destruct H as [H|[w [H1 H2]]]; [left; exact H | right; exists w; split; [exact H1 | apply Hlive_sub; exact H2]]).
+          apply (ri_nodes _ _ I) in HC. apply mem_get in HC. rewrite Hget1 in E. destruct (get t p); [discriminate | congruence].
+      + intros p nd1 H. rewrite Hgetp in H. destruct (get t1 p) as [nd2|] eqn:E; [|discriminate].
+        destruct (match p with [] => true | _ => _ end); [|discriminate]. inversion H; subst. apply Hroutes1. exact E.
+      + intros p nd1 H. rewrite Hgetp in H. destruct (get t1 p) as [nd2|] eqn:E; [|discriminate].
+        destruct (match p with [] => true | _ => _ end); [|discriminate]. inversion H; subst. apply (Hnamed1 p nd1 E).
+    - apply (fib_update_all t1 R R' fib S1 F). intros q Hq. rewrite Hget1 in Hq. destruct (get t q) as [nd|] eqn:E.
+      + simpl in Hq. rewrite <- (ri_routes _ _ I q nd E). destruct (rn_routes nd) eqn:Er; [reflexivity|].
+        assert (rn_named nd = true) by (apply (ri_named _ _ I q nd E); congruence). congruence.
+      + eapply RInv_absent; eassumption.
   Qed.
 
   Theorem rib_step_sys : forall t R (fib : spec) o, RInv t R -> FOK fib R ->
@@ -438,14 +503,7 @@ Section RibProofs.
           rewrite (RInv_absent _ _ _ I E). reflexivity. }
         split; [eapply RInv_ext; eassumption | eapply FOK_ext; eassumption].
     - (* Cleanup *)
-      destruct (clean_fold_sys f (rev (keys t)) t R fib [] I F) as [I' F']. cbv zeta in I', F'.
-      assert (Hext : forall p, rget (map (fun kv => (fst kv, rem_face (snd kv) f)) R) p = rget (fold_left (Rstep f) (rev (keys t)) R) p).
-      { intro p. rewrite rget_map_rem_face. rewrite rget_Rstep_fold by (apply NoDup_rev, I).
-        destruct (nmem p (rev (keys t))) eqn:E; [reflexivity|].
-        assert (Hnone : get t p = None).
-        { apply get_None_notin. intro Hin. apply in_rev in Hin. apply nmem_In in Hin. congruence. }
-        rewrite (RInv_absent _ _ _ I Hnone). reflexivity. }
-      split; [eapply RInv_ext; eassumption | eapply FOK_ext; eassumption].
+      cbn [fst snd]. apply cleanup_sys; assumption.
   Qed.
 
   (* ---------- whole histories ---------- *)
